@@ -451,6 +451,18 @@ func pickRunTo(t *simrt.Tape, w *WF) {
 			for i := range w.RunTo {
 				w.RunTo[i] = "^" + w.RunTo[i] + "$"
 			}
+			if t.Choose(simrt.StGen, 2, 0) == 1 {
+				// inline flags belong to the pattern they stand in: the first pattern
+				// ignores case, a later one names a process in capitals and selects
+				// nothing (process names are lower-case)
+				w.RunTo[0] = "(?i)" + strings.ToUpper(w.RunTo[0])
+				for _, p := range procs {
+					if !seen[p] {
+						w.RunTo = append(w.RunTo, "^"+strings.ToUpper(p)+"$")
+						break
+					}
+				}
+			}
 		}
 	}
 }
